@@ -150,6 +150,29 @@ func widthOfArg(v ssa.Value, at *ssa.BasicBlock) int {
 			}
 		}
 	}
+	// net.IP.To16() / To4() return 16 / 4 bytes (or nil, which the callers have excluded before they write)
+	if call, ok := v.(*ssa.Call); ok {
+		if f := calleeOf(call.Common()); f != nil && f.Pkg() != nil && f.Pkg().Path() == "net" {
+			switch f.Name() {
+			case "To16":
+				return 16
+			case "To4":
+				return 4
+			}
+		}
+	}
+	if sl, ok := v.(*ssa.Slice); ok && sl.Low == nil && sl.High == nil {
+		if call, ok := sl.X.(*ssa.Call); ok {
+			if f := calleeOf(call.Common()); f != nil && f.Pkg() != nil && f.Pkg().Path() == "net" {
+				switch f.Name() {
+				case "To16":
+					return 16
+				case "To4":
+					return 4
+				}
+			}
+		}
+	}
 	// a value whose length is pinned by a dominating len(v) == k test
 	w := -1
 	for _, f := range factsAt(at) {
